@@ -1,6 +1,7 @@
 (* Property C17 — load-balancer selection laws.  Model: Lb.v (src/connectors/loadbalance.rs). *)
 From RP Require Import Base Lb LbProofs.
-From Coq Require Import Permutation.
+From Coq Require Import Permutation String.
+From RP.Gen Require Gen_lb.
 
 Theorem C17_only_members : forall (A : Type) (members : list A) ticket m,
   member_at members ticket = Some m -> In m members.
@@ -35,6 +36,16 @@ Theorem C17_random_possible : forall (A : Type) (members : list A) i m,
   nth_error members i = Some m -> member_at members i = Some m.
 Proof. exact @random_possible. Qed.
 Print Assumptions C17_random_possible.
+
+(* tie to the source (regenerated on every run): round_robin touches the shared counter through exactly one
+   atomic fetch_add(1) and nothing else in the file touches it, which is what tickets_of_schedule models; the
+   member is connectors[ticket mod len] (member_at); hash_by indexes with hash mod len. *)
+Theorem C17_source_shape :
+  Gen_lb.rr_counter_ops = ["fetch_add"%string] /\ Gen_lb.rr_counter_other_mentions = 0%N /\
+  Gen_lb.rr_counter_mentions_in_file = 1%N /\ Gen_lb.rr_step_is_one = true /\
+  Gen_lb.rr_index_is_ticket_mod_len = true /\ Gen_lb.hash_index_is_hash_mod_len = true.
+Proof. exact (conj eq_refl (conj eq_refl (conj eq_refl (conj eq_refl (conj eq_refl eq_refl))))). Qed.
+Print Assumptions C17_source_shape.
 
 Example C17_example : count_pos 3 1 (seq 1000 12) = 4%nat /\ member_at [10; 20; 30] 1001 = Some 30.
 Proof. split; vm_compute; reflexivity. Qed.
